@@ -11,7 +11,9 @@ All statements are over ℚ for the executable model `DclabModel.Feat` (which mi
              central moments up to third order), `swap_axes`, `inert_ratio_swap_reciprocal`,
              `area_is_shoelace`, `moments_none_iff`
 2. volume    `cone_symmetric`, `scale_cubic`, `point_scale_cubic`, `reverse_flips_sign`,
-             `closing_is_idempotent`, `getVolume_pixel_cubic`, `getVolume_reverse_flips_sign`
+             `closing_is_idempotent`, `getVolume_pixel_cubic`, `getVolume_reverse_flips_sign`,
+             `getVolume_fix_orientation`, `getVolume_fix_orientation_sign`,
+             `old_fix_orientation_wrong_witness` (F35), `old_fix_orientation_agrees_when_ccw`
 3. brightness `offset_shifts_mean_one_to_one`, `offset_is_background_shift`, `sd_offset_invariant`,
              `percentile_shift_equivariant`, `perc_offset_one_to_one`,
              `old_bright_perc_raises_on_array_offset` (F19 witness),
@@ -178,7 +180,7 @@ theorem getVolume_pixel_cubic (pi k posx posy pix : Rat) (cont : List Pt) (hk : 
   have h1 : k * posx / (k * pix) = posx / pix := mul_div_mul_left _ _ hk
   have h2 : k * posy / (k * pix) = posy / pix := mul_div_mul_left _ _ hk
   split
-  · simp only [h1, h2, point_scale_cubic, Option.map_some]
+  · simp only [halves, h1, h2, point_scale_cubic, Option.map_some]
     congr 1; ring
   · rfl
 
@@ -189,7 +191,7 @@ theorem getVolume_reverse_flips_sign (pi posx posy pix : Rat) (cont : List Pt) :
   unfold getVolume
   simp only [List.length_reverse]
   split
-  · simp only [List.map_reverse, List.reverse_reverse, Option.map_some]
+  · simp only [halves, List.map_reverse, List.reverse_reverse, Option.map_some]
     generalize hZ : List.map (fun p : Pt => p.1 - posx / pix) cont = Z
     generalize hR : List.map (fun r : Rat => if r < 0 then 0 else r)
       (List.map (fun p : Pt => p.2 - posy / pix) cont) = R
@@ -203,6 +205,39 @@ theorem getVolume_reverse_flips_sign (pi posx posy pix : Rat) (cont : List Pt) :
     rw [h2, zip_reverse' hLZ]
     congr 1; ring
   · rfl
+
+/-- **`fix_orientation=True` returns the volume of the re-oriented contour** (F35 fixed): for
+every contour, whatever the orientation test decides, the result is `get_volume` of the contour
+traversed in the direction the test asks for -/
+theorem getVolume_fix_orientation (pi posx posy pix : Rat) (cont : List Pt) (cw : Bool) :
+    getVolumeFix pi cont posx posy pix cw
+      = getVolume pi (if cw then cont.reverse else cont) posx posy pix := by
+  cases cw
+  · rfl
+  · simp only [getVolumeFix, getVolume, if_true, List.length_reverse, List.map_reverse]
+
+/-- … hence it is `get_volume` itself, negated exactly when the contour was clockwise: a
+clockwise and the corresponding counter-clockwise contour give the same value -/
+theorem getVolume_fix_orientation_sign (pi posx posy pix : Rat) (cont : List Pt) (cw : Bool) :
+    getVolumeFix pi cont posx posy pix cw
+      = (getVolume pi cont posx posy pix).map (fun v => if cw then -v else v) := by
+  rw [getVolume_fix_orientation]
+  cases cw
+  · simp only [Bool.false_eq_true, if_false]
+    cases getVolume pi cont posx posy pix <;> rfl
+  · simp only [if_true]; exact getVolume_reverse_flips_sign pi posx posy pix cont
+
+/-- F35: before the fix the reversed radii were combined with the un-reversed axial coordinates;
+for this asymmetric clockwise quadrilateral the result (−13/2 with π := 3) is not the volume of the
+counter-clockwise contour (19/2) -/
+theorem old_fix_orientation_wrong_witness :
+    getVolumeFixOld 3 [(1, 0), (3, 1), (0, 2), (0, 0)] 0 0 1 true = some (-13/2) ∧
+    getVolume 3 [(1, 0), (3, 1), (0, 2), (0, 0)].reverse 0 0 1 = some (19/2) ∧
+    getVolumeFix 3 [(1, 0), (3, 1), (0, 2), (0, 0)] 0 0 1 true = some (19/2) := by decide +kernel
+
+/-- F35: without re-orientation nothing changed -/
+theorem old_fix_orientation_agrees_when_ccw (pi posx posy pix : Rat) (cont : List Pt) :
+    getVolumeFixOld pi cont posx posy pix false = getVolumeFix pi cont posx posy pix false := rfl
 
 /-! ## 3. brightness -/
 
